@@ -1224,6 +1224,8 @@ class Interp:
                 return item in container
             return z3.Contains(to_zstr(container), to_zstr(item))
         if isinstance(container, SetV):
+            from .builtins_ import check_hashable
+            check_hashable(self, item)
             if container.sym is None:
                 if (isinstance(item, (str, int, bool)) or item is None or isinstance(item, EnumV)) and \
                         not self.set_has_symbolic(container):
@@ -1236,6 +1238,8 @@ class Interp:
                 return False
             return z3.IsMember(to_zstr(item), container.sym)
         if isinstance(container, DictV):
+            from .builtins_ import check_hashable
+            check_hashable(self, item)
             if container.dom is None:
                 r = False
                 for k in container.concrete:
